@@ -478,6 +478,10 @@ func c14run(r *ev.Run) {
 		"SELECT v FROM (SELECT v FROM m WHERE time > now() - 1h)", "SELECT v FROM (SELECT 1 + 1 AS v FROM m GROUP BY time(1m + 1m, now()))",
 		"SELECT v FROM (SELECT v FROM (SELECT percentile(v, 90 + 5) AS v FROM m WHERE a = 1 + 2)), m2 WHERE time > now() - (1h + 1m)",
 		"SELECT mean(v) INTO db.rp.t FROM (SELECT v FROM m WHERE time < now()) GROUP BY time(10m, now())", "SELECT v FROM m WHERE time > now() - (1h + 30m)", "SELECT (1 + 2) * v, -(3 - 1) FROM m",
+		// field lists the name queries treat specially: an explicit time column in every position, repeated names,
+		// tag arguments of top(), a target without a database
+		"SELECT time AS ts, v, host FROM m", "SELECT time, v FROM m", "SELECT v, time, w FROM m", "SELECT v, time FROM m", "SELECT time, time AS t, v, time FROM m",
+		"SELECT v, v, v_1, v AS v_1 FROM m", "SELECT top(v, host, region, 2), host FROM m", "SELECT mean(v) INTO out FROM db0..m, m2", "SELECT v INTO db1.rp.:MEASUREMENT FROM db0..m",
 	} {
 		if _, err := influxql.ParseStatement(t); err == nil {
 			if _, ok := roots[t]; !ok {
